@@ -332,6 +332,12 @@ class ValueSet:
                 else:
                     different = True
 
+            if other.regions and any(region not in other.regions for region in self.regions):
+                # pointers into different regions are different
+                different = True
+            if self.regions and other.regions and (len(self.regions) > 1 or len(other.regions) > 1):
+                different = True
+
             if same and not different:
                 return TrueResult()
             if same and different:
